@@ -2,6 +2,8 @@ package main
 
 import (
 	"fmt"
+	"go/token"
+	"go/types"
 	"sort"
 	"strings"
 
@@ -32,6 +34,9 @@ func bufferParam(fn *ssa.Function) int {
 }
 
 func runR02_2(c *Ctx, r *R) {
+	// the depth obligation is C02's and C11's (the descent obligation also serves C13)
+	rDepth := &R{c: c, rule: &Rule{ID: r.rule.ID, Props: []string{"C02", "C11"}}}
+	defer func() { r.n += rDepth.n }()
 	e := newBE(c)
 	cone := readCone(c)
 	var module []*ssa.Function
@@ -195,6 +200,66 @@ func runR02_2(c *Ctx, r *R) {
 			if state[f] == 0 && dfs(f, nil) {
 				found = true
 				break
+			}
+		}
+		// depth: "bounded by the input" is not "bounded". One level of nesting costs a few bytes of input and a few
+		// hundred bytes of goroutine stack; the stack limit (1 GB) is a fatal error no recover() stops. Unless some
+		// function of the cycle carries a depth counter that it tests against a constant and hands on changed, a
+		// well-formed value of a few tens of megabytes kills the process.
+		{
+			counted := false
+			for _, f := range comp {
+				for pi, p := range f.Params {
+					b, ok := p.Type().Underlying().(*types.Basic)
+					if !ok || b.Info()&types.IsInteger == 0 {
+						continue
+					}
+					tested, handedOn := false, false
+					for _, u := range users(p) {
+						if cmp, ok := u.(*ssa.BinOp); ok {
+							switch cmp.Op {
+							case token.LSS, token.GTR, token.LEQ, token.GEQ:
+								if _, isK := constInt(cmp.Y); isK {
+									tested = true
+								}
+								if _, isK := constInt(cmp.X); isK {
+									tested = true
+								}
+							case token.ADD, token.SUB:
+								for _, cv := range succ[f] {
+									if !in[c.calleeOf(&cv.Call)] {
+										continue
+									}
+									for _, a := range cv.Call.Args {
+										if a == ssa.Value(cmp) {
+											handedOn = true
+										}
+									}
+								}
+							}
+						}
+					}
+					_ = pi
+					if tested && handedOn {
+						counted = true
+					}
+				}
+			}
+			// keyed by the exported functions of the cycle: stable when a helper joins the cycle (parseElement)
+			var exported []string
+			for _, f := range comp {
+				if token.IsExported(f.Name()) {
+					exported = append(exported, fnKey(f))
+				}
+			}
+			if len(exported) == 0 {
+				exported = names
+			}
+			dkey := "recursion-depth{" + strings.Join(exported, ",") + "}"
+			if counted {
+				rDepth.OK(dkey, pos, "the cycle carries a depth counter tested against a constant")
+			} else {
+				rDepth.Bad(dkey, pos, "the nesting depth of the recursive parser is limited only by the size of the input: no function of the cycle carries a depth counter. A well-formed value nested a few million levels deep (about 44 MB: lists of one element) makes ParseValue exceed the 1 GB goroutine stack limit - a fatal error that no recover() stops, the process dies (findings/repro/nested_value_stack_overflow_test.go). mpx reads a frame of whatever size its 4-byte prefix announces and parses it before looking at its code, so a peer can do this to a server")
 			}
 		}
 		if found {
